@@ -7,7 +7,7 @@ from cocoverif import props  # noqa
 
 
 def technique_of(rules):
-    fams = {r.split("-")[0] for r in rules}
+    fams = {r.split("~")[0].split("-")[0] for r in rules}
     parts = ["static analysis over the parsed source (ast), no execution of repository code"]
     if fams & {"TAB", "ENC", "WID", "DSK", "REL", "DIR", "EXP"}:
         parts.append("constant folding of tables and pure helpers over finite domains against reference tables")
@@ -40,7 +40,7 @@ for pid in all_ids:
             "category": "other",
             "text": ("Static conformance of the current source to repository-specific rules (%s). Decides: %s "
                      "Does not decide: %s The behaviour as a whole is not decided; each rule is a necessary condition of it.")
-                    % (", ".join(sp["rules"]), sp["explanation"], sp["not_decided"]),
+                    % (", ".join(r.split("~")[0] + ("(part)" if "~" in r else "") for r in sp["rules"]), sp["explanation"], sp["not_decided"]),
             "design_ref": "DESIGN.md section 4, %s" % pid,
         },
         "level_note": "Trusted base: " + "; ".join(sp["assumptions"]),
